@@ -1,12 +1,13 @@
 import SecsModel.Proofs.SecsIHeader
 import SecsModel.Model.SecsI
+import SecsModel.Proofs.SecsI
 /-!
 # C16 — SECS-I blocks split, checksum and reassemble any message body without loss
 
 Only property theorems, non-vacuity examples and (where they exist) counterexample theorems live here.
 -/
 namespace SecsModel.Props.C16
-open SecsModel SecsModel.Gen SecsModel.Proofs.SecsIHdr
+open SecsModel SecsModel.Gen SecsModel.Proofs.SecsIHdr SecsModel.Model.SecsI SecsModel.Proofs.SecsI
 
 /-- The generated `SecsIHeader.encode` produces exactly the E4 header bytes, and the generated `decode`
 recovers every field — for **all** in-range field values. -/
@@ -31,5 +32,58 @@ theorem header_roundtrip (h : SecsIHeader) (hr : InRange h) :
 
 /-- non-vacuity: a concrete in-range header -/
 example : InRange ⟨0xFFFFFFFF, 0x7FFF, 127, 255, 0x7FFF, true, true, true⟩ := by decide
+
+/-- what `_split_blocks` is: the list of data chunks the message is cut into -/
+def dataBlocks (body : Bytes) : List Bytes := if body.length = 0 then [body] else chunks 244 body
+
+theorem split_eq (h : Header) (body : Bytes) :
+    split h body = number h true (dataBlocks body).length 0 (dataBlocks body) := by
+  simp only [split, BlockFmt.secsiBlockSize, dataBlocks]
+  have : ¬ ((244 : Int) = -1) := by decide
+  simp [this]
+
+/-- **Split, all body lengths.**  The blocks' data concatenate to the body; there are `max 1 ⌈len/244⌉` of them; none
+carries more than 244 bytes; block `j` (0-based) is numbered `j+1`, carries the end bit iff it is the last, and has every
+other header field of the message header. -/
+theorem split_correct (h : Header) (body : Bytes) :
+    ((split h body).map (·.data)).flatten = body
+    ∧ (split h body).length = max 1 ((body.length + 243) / 244)
+    ∧ (∀ b ∈ split h body, b.data.length ≤ 244)
+    ∧ (∀ j, j < (split h body).length → ((split h body)[j]?).map (·.header) =
+        some { h with block := ((j + 1 : Nat) : Int), last_block := decide (j + 1 = (split h body).length) }) := by
+  rw [split_eq]
+  have hlen : (number h true (dataBlocks body).length 0 (dataBlocks body)).length = (dataBlocks body).length := number_length ..
+  refine ⟨?_, ?_, ?_, ?_⟩
+  · rw [number_data]
+    unfold dataBlocks
+    split
+    · rename_i h0; have : body = [] := List.length_eq_zero_iff.mp h0; subst this; rfl
+    · exact chunks_flatten 244 (by decide) _ _ (Nat.le_refl _)
+  · rw [hlen]
+    unfold dataBlocks
+    split
+    · rename_i h0; rw [h0]; rfl
+    · rename_i h0
+      rw [chunks_length 244 (by decide) _ _ (Nat.le_refl _)]
+      have : 1 ≤ (body.length + 244 - 1) / 244 := by
+        apply (Nat.le_div_iff_mul_le (by decide)).mpr; omega
+      have e : body.length + 244 - 1 = body.length + 243 := by omega
+      rw [e] at this ⊢
+      omega
+  · intro b hb
+    have hd : b.data ∈ (number h true (dataBlocks body).length 0 (dataBlocks body)).map (·.data) := List.mem_map_of_mem hb
+    rw [number_data] at hd
+    unfold dataBlocks at hd
+    split at hd
+    · rename_i h0; simp at hd; rw [hd]; omega
+    · exact (chunks_bound 244 (by decide) _ _ (Nat.le_refl _) _ hd).2
+  · intro j hj
+    rw [hlen] at hj ⊢
+    rw [number_get h true _ 0 _ j hj]
+    simp
+
+/-- non-vacuity / sanity: a 245-byte body gives two blocks of 244 and 1 bytes -/
+example : ((split ⟨1, 2, 3, 4, 0, false, true, true⟩ (List.replicate 245 7)).map (fun b => (b.header.block, b.header.last_block, b.data.length)))
+    = [(1, false, 244), (2, true, 1)] := by decide +kernel
 
 end SecsModel.Props.C16
